@@ -9,7 +9,8 @@ PID = 'C05'
 STATS = G.STATS
 PARTIAL = [
     "the model of helpers.knot_refinement is specification-level (the knots X inserted one at a time with the proved A5.1 model); that A5.4 as coded returns the same control points is checked by the exact correspondence, not proved",
-    "refine_preserves_curve is proved for curves under the per-knot admissibility predicate RefineOk; discharging RefineOk for the generated list X (from sortedness and tolerance separation) and the lifting to surfaces / volumes are not proved",
+    "curves and surfaces (helper level, refineDir in u and v, refine_knotvector on any subset of a surface's directions) are proved end-to-end under explicit hypotheses: well-formed object, knot vector clamped at the END of the refined direction, 0 <= tol and tolerance separation of the old knots and the bisection knots (equal or further apart than tol); volumes (mapVol) are not lifted - for them only the untouched-directions theorem (refineKnotvector_unselected) is proved, shape preservation is oracle + correspondence",
+    "rational objects: the theorems are about the homogeneous net (coordinatewise); the projection step is C01/C09's",
 ]
 
 
